@@ -31,6 +31,9 @@ pub enum Op {
     Disconnect { ep: u8, which: Option<u16> },
     /// `Clients::shutdown()`
     ShutdownAll,
+    /// a send whose destination's active connection has a stalled socket (flushes pending) for
+    /// `stall_ms` of virtual time, below or above the relay's write timeout
+    StalledSend { conn: u16, dst: u8, d: Dgram, stall_ms: u16 },
 }
 
 #[derive(Debug, Clone, Copy, PartialEq, Eq)]
@@ -65,9 +68,11 @@ pub fn op(focus: Focus) -> BoxedStrategy<Op> {
     let connect0 = prop_oneof![3 => Just(0u8), 1 => 1u8..N_EP].prop_flat_map(|ep| prop_oneof![3 => Just(true), 1 => Just(false)].prop_map(move |v2| Op::Connect { ep, v2 }));
     let close = (any::<u16>(), any::<bool>()).prop_map(|(conn, err)| Op::Close { conn, err });
     let disc = (0u8..N_EP, proptest::option::weighted(0.7, any::<u16>())).prop_map(|(ep, which)| Op::Disconnect { ep, which });
+    let stalled = (any::<u16>(), 0u8..N_EP, dgram(3000), prop_oneof![Just(300u16), Just(700), Just(1500), Just(2500)])
+        .prop_map(|(conn, dst, d, stall_ms)| Op::StalledSend { conn, dst, d, stall_ms });
     match focus {
-        Focus::Forwarding => prop_oneof![4 => connect, 2 => close, 8 => send, 3 => burst, 1 => disc, 1 => Just(Op::ShutdownAll).prop_filter("rare", |_| true)].boxed(),
-        Focus::Registry => prop_oneof![6 => connect0, 4 => close, 6 => send, 3 => disc, 1 => burst].boxed(),
+        Focus::Forwarding => prop_oneof![4 => connect, 2 => close, 8 => send, 3 => burst, 1 => disc, 1 => Just(Op::ShutdownAll).prop_filter("rare", |_| true), 2 => stalled].boxed(),
+        Focus::Registry => prop_oneof![6 => connect0, 4 => close, 6 => send, 3 => disc, 1 => burst, 1 => stalled].boxed(),
     }
 }
 
@@ -123,6 +128,7 @@ pub struct Summary {
     pub max_conns_one_ep: usize,
     pub gone_notice: bool,
     pub displaced: bool,
+    pub stalled: bool,
 }
 
 pub fn run_history(h: &History, focus: Focus, prop: &str) -> Outcome {
@@ -298,6 +304,29 @@ async fn run_history_async(h: &History, focus: Focus, prop: &str) -> Outcome {
                     }
                 }
             }
+            Op::StalledSend { conn, dst, d, stall_ms } => {
+                if conns.is_empty() { continue; }
+                let c = gens::pick(*conn, conns.len());
+                let top = stack.get(dst).and_then(|s| s.last()).copied();
+                match top {
+                    Some(top) if conns[c].alive => {
+                        conns[top].end.set_flush_stalled(true);
+                        do_send(&conns, c, *dst, d, &mut exp, &mut sent_to, &stack, &mut sum);
+                        memrelay::settle().await;
+                        tokio::time::sleep(std::time::Duration::from_millis(*stall_ms as u64)).await;
+                        conns[top].end.set_flush_stalled(false);
+                        sum.stalled = true;
+                        // (a connection sending to itself is busy in its own un-timed tick flush
+                        // while stalled, so the write timeout does not apply: it is only delayed)
+                        if c != top && *stall_ms as u128 > memrelay::HARNESS_WRITE_TIMEOUT.as_millis() {
+                            // the relay gives up on the stalled connection
+                            conns[top].alive = false;
+                            model_unregister(top, &conns, &mut stack, &mut sent_to, &mut exp, &mut sum);
+                        }
+                    }
+                    _ => do_send(&conns, c, *dst, d, &mut exp, &mut sent_to, &stack, &mut sum),
+                }
+            }
             Op::ShutdownAll => {
                 relay.clients.shutdown().await;
                 for c in conns.iter_mut() {
@@ -336,7 +365,8 @@ async fn run_history_async(h: &History, focus: Focus, prop: &str) -> Outcome {
                         Some(e) => got.push(Expect::Gone(e)),
                         None => fail!("gone-unknown", "step {step}: EndpointGone for unknown id"),
                     },
-                    FromRelay::Ping(_) | FromRelay::Pong(_) => {}
+                    FromRelay::Ping(data) => { c.end.send(memrelay::encode_pong(data)); }
+                    FromRelay::Pong(_) => {}
                     other => fail!("unexpected-frame", "step {step}: conn {i} (ep {}, v2={}) received unexpected frame {other:?}", c.ep, c.v2),
                 }
             }
@@ -406,6 +436,7 @@ async fn run_history_async(h: &History, focus: Focus, prop: &str) -> Outcome {
     if sum.displaced { classes.push("displacement"); }
     if sum.max_conns_one_ep >= 3 { classes.push("3+conns-one-id"); }
     if sum.delivered > 0 { classes.push("delivered"); }
+    if sum.stalled { classes.push("stalled-receiver"); }
     let nontrivial = match focus {
         Focus::Forwarding => sum.dup_send && sum.delivered > 0,
         Focus::Registry => sum.max_conns_one_ep >= 3 && sum.promotion,
